@@ -516,8 +516,13 @@ def designers_stage(c, judge):
       'NSGA2': lambda pr, s: nsga2.NSGA2Designer(pr, population_size=4, first_survival_after=4, seed=s),
       'EAGLE': lambda pr, s: eagle_strategy.EagleStrategyDesigner(pr, seed=s),
   }
+  spaces = []
   for i in range(n):
     space = cd.gen_space(c.rng, f32=True, max_params=5, max_int_width=15)
+    # ... followed by a second study of the same process whose parameters have the same names, types and
+    # domain summaries (count, smallest, largest value) but other feasible values
+    spaces += [space, cd.twin_space(c.rng, space)]
+  for i, space in enumerate(spaces):
     goal = c.rng.choice(['MAXIMIZE', 'MINIMIZE'])
     problem = cd.build_problem(vz, space, (('obj', goal),))
     for name, fac in factories.items():
@@ -621,6 +626,10 @@ def service_stage(c, judge):
       out = run_study(c, judge, algo, space, rounds, [c.rng.randrange(1, 6) for _ in range(rounds)], goal=c.rng.choice(['MAXIMIZE', 'MINIMIZE']),
                       infeasible_rate=0.25 if i % 2 == 0 else 0.0)
       record(algo, out, space)
+    twin = cd.twin_space(c.rng, space)
+    for algo in FAST_ALGOS[:3] if quick else FAST_ALGOS:
+      out = run_study(c, judge, algo, twin, 2, [c.rng.randrange(1, 6) for _ in range(2)], note=':twin-study')
+      record(algo, out, twin)
   # ranges only float64 can hold (a bound above the float32 maximum, a width that overflows in float32, a LOG
   # range below the float32 subnormals): every algorithm must refuse them or answer inside the space
   extreme = [
